@@ -38,3 +38,29 @@ Fixpoint session_from (rd : Reader.reader) (xs : list (T.state * nat * Reader.ne
 Definition client_session (xs : list (T.state * nat * Reader.net)) : list SS.verdict :=
   session_from (Reader.reader_new Reader.KTcp) xs.
 End Sys.
+
+(* ---- several connections of one channel: ONE reader for all of them, reset by ClientLoop::run when
+   a connection starts (the repaired F5) ---- *)
+Section Conns.
+Variable cfg : T.config.
+Variable reqs : content.
+
+Definition xchg := (T.state * nat * Reader.net * F.fin)%type.
+
+Fixpoint session_fi (rd : Reader.reader) (xs : list xchg) : Reader.reader * list SS.verdict :=
+  match xs with
+  | [] => (rd, [])
+  | (st, id, chunks, fi) :: rest =>
+      let '(rd1, e, res) := exchange_from cfg reqs rd st chunks fi in
+      match fi, e with
+      | F.FinPending, F.EndPending => let '(rd2, vs) := session_fi rd1 rest in (rd2, verdict_for id res :: vs)
+      | _, _ => (rd1, [verdict_for id res])
+      end
+  end.
+
+Fixpoint connections_from (rd : Reader.reader) (conns : list (list xchg)) : list (list SS.verdict) :=
+  match conns with
+  | [] => []
+  | c :: rest => let '(rd1, vs) := session_fi (Reader.reader_reset rd) c in vs :: connections_from rd1 rest
+  end.
+End Conns.
